@@ -2168,24 +2168,36 @@ def fits_types(vals):
     return [t for t in ('int16', 'int32', 'uint32', 'int64', 'uint64', 'intp') if mx <= np.iinfo(t).max]
 
 
-def buffer_case(rng, case, p=0.8):
-    """R16: the sizes of a plain history are carried by ONE 0-d array that the caller refills in place before each
-    call (the same object for generate and skip), its shapes by ONE list / ONE integer array (constructor included);
-    some calls keep a fresh Python int of equal content"""
-    sizes = [o[1] for o in case['ops'] if o[0] in 'gs' and isinstance(o[1], int)]
-    dt = rng.choice([t for t in fits_types(sizes) if not (t.startswith('u') and any(v < 0 for v in sizes))])
-    skind = rng.choice(['buf:list', 'buf:list', 'buf:arr:int64', 'buf:arr:int32'])
-    ops = []
-    for kind, arg in case['ops']:
+def to_buffers(rng, ops, dt, skind, p):
+    out = []
+    for kind, arg in ops:
         if kind in 'gs' and isinstance(arg, int) and rng.chance(p):
             arg = {'t': 'buf0:' + dt, 'v': arg}
             if rng.chance(0.25):
                 arg = {'form': 'kw', 'a': arg}
         elif kind == 'S' and isinstance(arg, (int, list)):
             arg = {'t': skind, 'v': [arg] if isinstance(arg, int) else list(arg)}
-        ops.append([kind, arg])
-    out = dict(case, ops=ops)
-    if case['shape'] is not None and rng.chance(0.7):
+        out.append([kind, arg])
+    return out
+
+
+def buffer_case(rng, case, p=0.8):
+    """R16: the sizes of a plain history are carried by ONE 0-d array that the caller refills in place before each
+    call (the same object for generate and skip), its shapes by ONE list / ONE integer array (constructor included);
+    some calls keep a fresh Python int of equal content.  Cases with a fork (R13) or with parent / child histories:
+    the derived object is served from the SAME buffers as its parent (one buffer, two generators)."""
+    lists = [case['ops']] + [case[k] for k in ('parent', 'child') if k in case] + \
+        ([case['fork']['child']] if case.get('fork') else [])
+    sizes = [o[1] for ops in lists for o in ops if o[0] in 'gs' and isinstance(o[1], int)]
+    dt = rng.choice([t for t in fits_types(sizes) if not (t.startswith('u') and any(v < 0 for v in sizes))])
+    skind = rng.choice(['buf:list', 'buf:list', 'buf:arr:int64', 'buf:arr:int32'])
+    out = dict(case, ops=to_buffers(rng, case['ops'], dt, skind, p))
+    for k in ('parent', 'child'):
+        if k in case:
+            out[k] = to_buffers(rng, case[k], dt, skind, p)
+    if case.get('fork'):
+        out['fork'] = dict(case['fork'], child=to_buffers(rng, case['fork']['child'], dt, skind, p))
+    if case['shape'] is not None and not isinstance(case['shape'], dict) and rng.chance(0.7):
         out['shape'] = {'t': skind, 'v': [case['shape']] if isinstance(case['shape'], int) else list(case['shape'])}
     return out
 
@@ -2372,26 +2384,54 @@ ROBUST3_BRANCHES = [w + b for w in ('corr', 'oracle') for b in (
     ':R16-shape-buffer-refilled', ':R16-buffer-holds-rejected-content', ':R16-equal-content-fresh-object')] + [
     'oracle:R15-close-set', 'oracle:R15-close-set-separated', 'oracle:R15-function-close', 'oracle:R15-function-close-separated',
     'oracle:R16-function-buffers', 'oracle:R16-function-one-array-two-roles', 'oracle:R16-function-equal-content-fresh-object',
-    'oracle:R16-rs-reseeded-in-place']
+    'oracle:R16-rs-reseeded-in-place', 'oracle:R16-one-buffer-two-generators', 'corr:R16-one-buffer-two-generators']
 MARGIN = 20.0       # variants count as told apart when their references differ by this many tolerances
 
 
 def robustness3_cases(rng, quick):
-    sets = close_sets(rng, quick)
+    sets = close_sets(rng, quick) + ([] if quick else random_close_sets(rng, 40))
     hist = [('R15-close', c) for c in close_histories(sets)]
     hist += [('R16-buffers', c) for c in buffer_scenarios(rng)]
     for _ in range(25 if quick else 400):
         hist.append(('R16-buffers', buffer_case(rng, valid_int_history(rng, rng.randint(2, 8)))))
     for _ in range(6 if quick else 100):
         hist.append(('R16-buffers', buffer_case(rng, rejected_history(rng, valid_int_history(rng, rng.randint(2, 5))), p=0.6)))
+    for how in ('copy', 'deepcopy', 'pickle'):
+        for _ in range(2 if quick else 30):
+            hist.append(('R16-buffers-fork', buffer_case(rng, fork_case(rng, how), p=0.9)))
     return sets, hist
+
+
+def random_close_sets(rng, n):
+    """R15, thorough tier: random base values and relative differences 1e-9 .. 5e-6"""
+    out = []
+    while len(out) < n:
+        fd = float(10.0 ** rng.uniform(0, 4))
+        ts = float(10.0 ** rng.uniform(-9, -2))
+        d = float(10.0 ** rng.uniform(-9, -5.3))
+        what = rng.choice(['Fd', 'Ts'])
+        L, vs, k = close_params(rng, what, fd, ts, [0.0, d, -2 * d] if rng.chance(0.5) else [0.0, d])
+        if not 30 <= k <= 9 * 10 ** 9:
+            continue
+        n1, n2 = rng.choice([1, 2, 5, 16]), rng.choice([1, 3, 7])
+        out.append({'kind': what + ('-tiny' if ts < 1e-8 and what == 'Ts' else '-relative'), 'L': L,
+                    'shape': rng.choice([None, 2, [2, 1]]), 'seed': rng.below(1 << 31), 'variants': vs,
+                    'ops': [['s', max(1, k - n1 - n2 - 4)], ['g', n1], ['g', None], ['s', 2], ['g', n2]],
+                    'order': rng.choice(['interleaved', 'sequential'])})
+    return out
 
 
 def robustness3_campaign(ctx, sets, hist, quick):
     for fam, case in hist:
+        if case.get('fork'):
+            continue                    # (forks: correspondence; the derived-object oracle follows)
         robustness_branches(ctx, case, 'oracle')
         run_oracle(ctx, 'generate_more_samples', case)
         run_oracle(ctx, 'generate_more_samples.twin', case)
+    hows = ['copy', 'deepcopy', 'pickle', 'similar']
+    for i in range(8 if quick else 120):
+        run_oracle(ctx, 'generate_more_samples.derived', buffer_case(ctx.rng, derived_case(ctx.rng, hows[i % 4]), p=0.9))
+        ctx.branch('oracle:R16-one-buffer-two-generators')
     for case in sets:
         r = run_oracle(ctx, 'generate_more_samples.close_values', case)
         ctx.branch('oracle:R15-close-set')
@@ -2765,6 +2805,9 @@ def correspondence(ctx, cases):
                 cm = re.sub(r'(\d)/\d+/(\d+)/(\d+)', r'\1/?/\2/\3', cm)
             ctx.corr('history.derived-object', c, ci, cm, key=('fork', repr(c['fork']), repr(c['ops'])))
             ctx.branch('corr:R13-derived-' + c['fork']['how'])
+            if any(is_buf(unform(o[1])[1] if o[0] in 'gs' else o[1]) for o in c['fork']['child']) and \
+                    any(is_buf(unform(o[1])[1] if o[0] in 'gs' else o[1]) for o in c['ops']):
+                ctx.branch('corr:R16-one-buffer-two-generators')
             if c.get('ctor') == 'global-rs':
                 ctx.branch('corr:R13-derived-from-default-RS-generator')
         if not have_hook:
@@ -3128,6 +3171,10 @@ def check(ctx):
 
 def search(ctx):
     """deeper failing-input search, used when a proof / correspondence broke"""
+    sets, hist = robustness3_cases(ctx.rng, True)
+    robustness3_campaign(ctx, sets, hist, True)
+    if len(ctx.failures) >= 20:
+        return
     for fam, case in robustness_cases(ctx.rng, 150):
         run_oracle(ctx, 'generate_more_samples', case)
         run_oracle(ctx, 'generate_more_samples.twin', case)
